@@ -143,6 +143,8 @@ class Serve:
                 return {"verdict": "crash", "how": "hang", "phase": phase, "violations": []}
             if obj["ev"] == "phase":
                 phase = obj["p"]
+            elif obj["ev"] == "begin":
+                phase = ""
             elif obj["ev"] == "end":
                 return obj["res"]
             elif obj["ev"] == "exit":
@@ -397,6 +399,8 @@ def confirm_crashes(engine, prop, batch_seed, agg, env=None):
                 break
             if obj["ev"] == "phase":
                 ph = obj["p"]
+            elif obj["ev"] == "begin":
+                ph = ""  # the warm-up phase is over
             elif obj["ev"] == "end":
                 ended = obj
             elif obj["ev"] == "exit":
